@@ -1,6 +1,7 @@
 package main
 
 import (
+	"database/sql"
 	"encoding/json"
 	"flag"
 	"fmt"
@@ -12,6 +13,7 @@ import (
 
 	"github.com/RoaringBitmap/roaring"
 	"github.com/akrennmair/updog"
+	updogdriver "github.com/akrennmair/updog/driver"
 	"github.com/akrennmair/updog/zverif/internal/vx"
 )
 
@@ -294,6 +296,7 @@ func recordCS(args []string) error {
 	out := fs.String("out", "", "trace file")
 	rounds := fs.Int("rounds", 6, "probe rounds per resource")
 	hold := fs.Int("holdms", 60, "how long A is held inside the critical section")
+	only := fs.String("only", "", "probe only this resource (driver)")
 	fs.Parse(args)
 	w, err := vx.NewNDWriter(*out)
 	if err != nil {
@@ -309,10 +312,10 @@ func recordCS(args []string) error {
 	}
 	var gates *vx.Gates
 	var holdT atomic.Int32 // the thread that is to be held at its next hook
-	resOf := map[string]string{"lru.get": "lru", "lru.put": "lru", "writer.addrow": "writer", "bigwriter.addrow": "bigwriter"}
+	resOf := map[string]string{"lru.get": "lru", "lru.put": "lru", "writer.addrow": "writer", "bigwriter.addrow": "bigwriter", "driver.open": "driver", "driver.close": "driver"}
 	seen := map[string]int{}
 	var smu sync.Mutex
-	updog.VerifHook = func(site string, arg uint64) {
+	hook := func(site string, arg uint64) {
 		res, ok := resOf[site]
 		if !ok || gates == nil {
 			return
@@ -331,6 +334,8 @@ func recordCS(args []string) error {
 		}
 		emit(map[string]any{"ev": "Rel", "t": t, "r": res})
 	}
+	updog.VerifHook = hook
+	updogdriver.VerifHook = hook
 	probe := func(res string, fa, fb func()) {
 		for i := 0; i < *rounds; i++ {
 			emit(map[string]any{"ev": "Round", "r": res})
@@ -343,6 +348,10 @@ func recordCS(args []string) error {
 			go func() { defer wg.Done(); gates.Register(2); fb() }()
 			wg.Wait()
 		}
+	}
+	if *only == "driver" {
+		updog.VerifHook = nil
+		return recordCSDriver(w, dir, probe, seen)
 	}
 	// LRU cache
 	c := updog.NewLRUCache(1 << 20)
@@ -359,6 +368,7 @@ func recordCS(args []string) error {
 	}
 	probe("bigwriter", func() { bw.AddRow(map[string]string{"a": "1"}) }, func() { bw.AddRow(map[string]string{"a": "2"}) })
 	updog.VerifHook = nil
+	updogdriver.VerifHook = nil
 	bw.Flush() // commits the open temp transaction and releases both databases
 	for _, res := range []string{"lru", "writer", "bigwriter"} {
 		if seen[res] == 0 {
@@ -454,6 +464,39 @@ func recordLRUConc(args []string) error {
 			}
 			emit(map[string]any{"ev": "Ret", "t": 1, "hit": ok, "bm": id})
 		}
+	}
+	return w.Close()
+}
+
+// recordCSDriver probes the sql driver's critical sections: goroutine A is held inside openFile
+// (between the cache lookup and OpenIndex) or inside fileConn.Close while B opens / closes too.
+func recordCSDriver(w *vx.NDWriter, dir string, probe func(res string, fa, fb func()), seen map[string]int) error {
+	rng := rand.New(rand.NewSource(1))
+	dict := identDict(rng, 3)
+	rows := []vx.Row{{{2, 1}}, {{2, 2}}}
+	n := 0
+	fresh := func() *sql.DB {
+		n++
+		p, err := buildIndex(dict, dir, fmt.Sprintf("cs%d.updog", n), "mem", rows)
+		if err != nil {
+			panic(err)
+		}
+		db, _ := sql.Open("updog", "file:"+p)
+		return db
+	}
+	text := renderQuery(dict, vx.Query{E: &vx.Expr{Op: "eq", Col: 2, Val: 1}})
+	q := func(db *sql.DB) func() { return func() { safeQuery(db, text) } }
+	// open vs open (different files: the same driver mutex must cover both)
+	a, b := fresh(), fresh()
+	probe("driver", q(a), q(b))
+	// close vs open
+	c := fresh()
+	probe("driver", func() { a.Close() }, q(c))
+	// close vs close
+	probe("driver", func() { b.Close() }, func() { c.Close() })
+	updogdriver.VerifHook = nil
+	if seen["driver"] == 0 {
+		return fmt.Errorf("driver hook never fired (hook missing?)")
 	}
 	return w.Close()
 }
